@@ -117,8 +117,10 @@ def drain(b, limit=8):
         pipe = b.pipe
         n = b.any()
         data = b.read()
-        got.append((pipe, n, None if data is None else bytes(data)))
-    return got
+        got.append((pipe, n, data))
+    # the results are compared only after the last read(): what an application keeps from an earlier read() must
+    # still be that payload after later ones (a result that aliases a re-used buffer is a wrong result)
+    return [(pipe, n, None if data is None else bytes(data)) for pipe, n, data in got]
 
 
 def tx_payload_cmds(radio, since=0):
